@@ -46,7 +46,7 @@ claims = {
          "bounded exhaustive execution of the real functions against an executable contract", "DESIGN.md 4.C15"),
  "C16": ("proof",
          "Partial claim: lock-permission discipline of every generated ordered map, StringSet and RulesBuilder (every access to data/order requires the mutex held, write-held for stores; every method releases it: removing or weakening one Lock/Unlock fails a named obligation), sequential view contracts (whole-view postconditions of Set/SetToTop/Has/Get/GetValue/Len), and a frame scan: package-level variables are written only by initialisers and the declared sync.Once body.",
-         "Assumed: sync.RWMutex gives mutual exclusion; *regexp.Regexp is safe for concurrent use. Not claimed: data-race freedom of whole parses and equality of concurrent vs solo results (schedules); callback-taking methods (Each, Map, Update, Find) are not verified (unknown callback frames).",
+         "Assumed: sync.RWMutex gives mutual exclusion; *regexp.Regexp is safe for concurrent use. Not claimed: data-race freedom of whole parses and equality of concurrent vs solo results (schedules); the callback-taking methods (Each, EachReverse, EachSafe, Find, Map, Update) are verified under the assumption that the callback leaves the collection's own fields alone (oncallback keeps): the callback runs with the lock held and the lock is released on every path.",
          "contract-based deductive verification (mutex as permission ghost state) + SSA frame scan of global stores", "DESIGN.md 4.C16"),
  "C17": ("proof",
          "Proof: safety and frame of directive.unescapeParameter (single pass), quoted-parameter scanner states under the step-function contract; the scanner's look-ahead helpers classify a parameter through its UNQUOTED value only (brackets trimmed after unquoting), so a quoted parameter selects the same body state as the bare one. BOUNDED stand-in: unescape(quote(x)) == x and unescape(x) == x for quote-free x, for every x over {\\, \", a, space, #, /, tab} up to length 5 (thorough: 6) on the real function.",
